@@ -117,6 +117,10 @@ Outcome execute_plan(Property &prop, const Plan &plan, bool capture)
 	RunCtx ctx;
 	ctx.capture = capture;
 	g_alloc.reset_run();
+	{
+		static const unsigned char junks[4] = {0xbe, 0xff, 0x01, 0x7f};
+		g_alloc.junk = junks[(plan.seed >> 7) & 3];
+	}
 	g_fd.reset_run();
 	g_loc.reset_run();
 	t_lib_active = 0;
